@@ -5,6 +5,8 @@ package c09
 
 import (
 	"fmt"
+
+	lindbkv "github.com/lindb/lindb/kv"
 	"io"
 	"os"
 	"path/filepath"
@@ -285,6 +287,26 @@ func (s *sys) row(ns, name int, tags []kv) (*metric.StorageRow, error) {
 	return br.Rows()[0], nil
 }
 
+// rowOwn builds a row in a block of its own (callers that run concurrently)
+func (s *sys) rowOwn(ns, name int, tags []kv) (*metric.StorageRow, error) {
+	m := &protoMetricsV1.Metric{Namespace: nsString(ns), Name: metricString(name), Timestamp: 1,
+		SimpleFields: []*protoMetricsV1.SimpleField{{Name: "f", Type: protoMetricsV1.SimpleFieldType_DELTA_SUM, Value: 1}}}
+	for _, t := range sortTags(tags) {
+		m.Tags = append(m.Tags, &protoMetricsV1.KeyValue{Key: tagKeyString(t.k), Value: tagValString(t.v)})
+	}
+	conv := metric.NewProtoConverter(models.NewDefaultLimits())
+	data, err := conv.MarshalProtoMetricV1(m)
+	if err != nil {
+		return nil, err
+	}
+	br := metric.NewStorageBatchRows()
+	br.UnmarshalRows(append([]byte(nil), data...))
+	if br.Len() != 1 {
+		return nil, fmt.Errorf("row block decoded into %d rows", br.Len())
+	}
+	return br.Rows()[0], nil
+}
+
 // ---- canonical outputs
 
 func errKind(err error) string {
@@ -456,6 +478,41 @@ func (s *sys) metaFlushFail() error {
 	err := s.meta.Flush()
 	index.VerifFailNextKVFlush(0)
 	return err
+}
+
+// metaFlushFailSchema: metricMetaDatabase.Flush during which the kv commit of the schema family fails.
+func (s *sys) metaFlushFailSchema() error {
+	index.VerifFailNextSchemaFlush(1)
+	err := s.meta.Flush()
+	index.VerifFailNextSchemaFlush(0)
+	return err
+}
+
+// compactStore runs the level-0 compaction job of every family of one kv store (production runs the
+// same job in a background goroutine when a family has enough level-0 files).
+func compactStore(storeName string, families ...string) error {
+	store, ok := lindbkv.GetStoreManager().GetStoreByName(storeName)
+	if !ok {
+		return fmt.Errorf("kv store %s not open", storeName)
+	}
+	for _, fn := range families {
+		f := store.GetFamily(fn)
+		if f == nil {
+			return fmt.Errorf("family %s/%s not found", storeName, fn)
+		}
+		if err := lindbkv.VerifC10CompactSync(f); err != nil {
+			return fmt.Errorf("compact %s/%s: %w", storeName, fn, err)
+		}
+	}
+	return nil
+}
+
+func (s *sys) metaCompact() error {
+	return compactStore(filepath.Join(s.metaDir(), "kv"), "ns", "metric", "schema", "tv")
+}
+
+func (s *sys) indexCompact(shard int) error {
+	return compactStore(s.shardDir(shard), "metric", "forward", "inverted", "series")
 }
 
 // indexFlushFail: the same for one shard's metricIndexDatabase.Flush (its series dictionary).
